@@ -30,6 +30,14 @@ struct vhost {
     long conn_rel;              /* with `reltime 1`: delay of the connect result after connectBegin */
     int destroy_rc;
     int destroy_hang;
+    /* life of the remote command: `life D` = it exits D seconds after the connect by itself (-1: never; not given:
+     * it is gone as soon as pdsh tears the connection down); a forwarded SIGTERM/SIGINT ends it at once unless
+     * `ignoreterm 1` (SIGKILL always does).  rcmd_destroy() (= waitpid for the exec transport) returns when the
+     * command has exited -- or with EINTR if a signal handler runs in the waiting worker, and then the command has
+     * NOT been reaped: the connection stays in flight. */
+    long life;
+    int life_set, ignoreterm;
+    long death;                 /* absolute virtual time at which the command is gone */
     struct script s[2];         /* 0 stdout, 1 stderr */
     int nbegin, nend;           /* connectBegin / connectEnd seen */
     int ndbegin, ndend;         /* destroyBegin / destroyEnd seen */
